@@ -716,8 +716,10 @@ theorem run_reported_ex (g : Cfg) (ops : List Op) : ∀ s : S, InvD g s → InvT
 /-- **C01 (closed connections: what the peer got against what was reported).** For every op sequence with
     well-formed sendfile(2) answers, open or closed at the end: the peer has received a prefix of
     `reported ++ p`, where `reported` is the concatenation of the ranges the calls reported through their return values
-    and `p` is empty — unless one `Sendfile` of the sequence failed after it had transmitted a prefix `p` of its range
-    (it returned `(0, err)` and the connection is closed): exactly the prefix the harness tolerates (`tolerate`). -/
+    and `p` is empty — or else (`p ≠ []`) the connection is closed and `p` is a prefix of the range of SOME
+    `.sendfile` op of the sequence. The run-level statement says no more than that: that this op is the one that
+    failed (returned `(0, err)`) after transmitting `p` and that it closed the connection is stated at step level only
+    (`step_reported_ex`, used in the proof). `p` is the prefix the harness tolerates (`tolerate`). -/
 theorem c01_wire_prefix_of_reported (g : Cfg) (ops : List Op) (hwf : OpsWF ops) :
     let s := run g init ops
     ∃ p, s.accepted = reported g init ops ++ p ∧ s.wire <+: reported g init ops ++ p ∧
